@@ -18,3 +18,7 @@ package executor
 //@   loop 0 invariant[C17c] forall k int trigger(mapHas(seen, k)) :: (forall j int :: 0 <= j && j < idx ==> g.PausedActionIds[j] != k) ==> !mapHas(seen, k)
 //@   ensures[C17] err == nil ==> execGenesisOK(g)
 //@   ensures[C17c] execGenesisOK(g) ==> err == nil
+
+// The default genesis pauses no action (C17: it is valid; C09).
+//@ func DefaultGenesisState() (g)
+//@   ensures[C17,C09] g != nil && len(g.PausedActionIds) == 0
